@@ -86,7 +86,7 @@ def generate(rng, tier):
     m = Model()
     base = "c"
     feats = set(rng.subset(["modrs", "path", "inline", "cfg_if", "cfg_match", "cfg_attr_path", "decoys", "skipmod",
-                            "innerskip", "ignore", "generated", "twice", "stemdir", "adversarial", "symlinkmod", "symlinkdir", "fallbacksib", "skiptwice"], 45))
+                            "innerskip", "ignore", "generated", "twice", "stemdir", "adversarial", "symlinkmod", "symlinkdir", "fallbacksib", "skiptwice", "ignoredotdot"], 45))
     lane = rng.choice(["normal"] * 7 + ["skip_children", "stdin", "fault"])
     if lane == "fault":
         feats.discard("adversarial")  # a decoy at the fallback location would make a missing module resolvable
@@ -371,6 +371,18 @@ def generate(rng, tier):
             else:
                 ignore_pats = [gb, "decoy_*.rs"]
             m.feats.add("ignore")
+    igd = None
+    if "ignoredotdot" in feats and root_status == "E" and lane == "normal" and "stemdir" not in feats:
+        # an ignored file declared through a path that climbs out of the root's directory and back: the entry names
+        # the file, however its path is spelled
+        rd = os.path.dirname(root)
+        igd = os.path.join(base, "igd", "ig_gen.rs")
+        up = os.path.relpath(igd, os.path.dirname(rd)) if rd != base else os.path.join(os.path.basename(base), "igd", "ig_gen.rs")
+        m.files[igd] = body()
+        m.files[root] = insert_decls(m.files[root], '#[path = "../%s"]\nmod ig_gen;\n' % up)
+        m.status[igd] = "E"
+        ignore_pats = list(ignore_pats) + [rng.choice(["igd/ig_gen.rs", "/igd/", "igd/*.rs"])]
+        m.feats.add("ignoredotdot")
     if ignore_pats:
         cfg.append("ignore = [%s]" % ", ".join('"%s"' % p for p in ignore_pats))
         for f in list(m.status):
@@ -378,6 +390,9 @@ def generate(rng, tier):
             if m.status[f] == "E" and ignored(ignore_pats, relc):
                 m.status[f] = "X"
                 m.why[f] = "matched by ignore %s" % ignore_pats
+    if igd:
+        m.status[igd] = "X"
+        m.why[igd] = "ignored-through-dotdot-spelling (entry of the ignore list, file declared as ../<dir>/igd/ig_gen.rs)"
     if generated_cfg:
         cfg.append("format_generated_files = false")
     if cfg:
